@@ -392,9 +392,11 @@ def check_score(ctx, case):
         if done == nchar:
             ctx.cls("score.brute_force_confirmed")
 
-    # -- the library: total and per-character list
+    # -- the library: total and per-character list (clauses that involve a trifurcating seed carry their own key:
+    # the down-pass docstring asks for a bifurcating root, see CONFIG["assumptions"])
+    tri = "" if rooting == "rooted" else "_trifurcating_seed"
     got, lst = call_score(tree, mat, gam_arg, weights, True)
-    ctx.check(got == want, "score equals the weighted minimum number of changes", "C16.score_minimal",
+    ctx.check(got == want, "score equals the weighted minimum number of changes", "C16.score_minimal" + tri,
               lambda: "got %r want %r (per column minimal changes %r); %s" % (got, want, changes, desc()))
     ctx.check(isinstance(lst, list) and len(lst) == nchar, "per-character list has one entry per column",
               "C16.per_char_len", lambda: "list %r for %d columns; %s" % (lst, nchar, desc()))
@@ -417,7 +419,7 @@ def check_score(ctx, case):
         kw["gaps_as_missing"] = gam_arg
     got2 = treescore.parsimony_score(t2, mat, weights=(None if weights is None else tuple(weights)), **kw)
     ctx.check(got2 == want, "score without per-character list (treescore route, tuple weights)",
-              "C16.score_minimal", lambda: "got %r want %r; %s" % (got2, want, desc()))
+              "C16.score_minimal" + tri, lambda: "got %r want %r; %s" % (got2, want, desc()))
     tsm = mat.taxon_state_sets_map(gaps_as_missing=gam)
     for attr in (None, "c16_sets"):
         t3 = build_tree(spec, ns, taxa, rooting)
@@ -425,7 +427,7 @@ def check_score(ctx, case):
         got3 = parsimony.fitch_down_pass(t3.postorder_node_iter(), state_sets_attr_name=attr,
                                          taxon_state_sets_map=tsm, weights=weights, score_by_character_list=l3)
         ctx.check(got3 == want and l3 == want_list, "fitch_down_pass on a fresh tree gives the same score",
-                  "C16.down_pass_route", lambda: "attr=%r got %r %r want %r %r; %s" % (
+                  "C16.down_pass_route" + tri, lambda: "attr=%r got %r %r want %r %r; %s" % (
                       attr, got3, l3, want, want_list, desc()))
 
     # -- child order
@@ -437,7 +439,7 @@ def check_score(ctx, case):
     if rtp.canon(ordered=True) != rt.canon(ordered=True):
         ctx.cls("score.child_order_really_changed")
     gotp, lstp = call_score(tp, mat, gam_arg, weights, True)
-    ctx.check(gotp == got and lstp == lst, "score independent of child order", "C16.child_order",
+    ctx.check(gotp == got and lstp == lst, "score independent of child order", "C16.child_order" + tri,
               lambda: "order %s gives %r %r, order %s gives %r %r; rows=%r weights=%r gam=%r" % (
                   rt.canon(ordered=True), got, lst, rtp.canon(ordered=True), gotp, lstp, m["rows"], weights, gam_arg))
 
@@ -459,7 +461,8 @@ def check_score(ctx, case):
             tr = build_tree(rr.to_spec(taxon_index=idx), ns, taxa, "rooted" if kind == "edge" else "unrooted")
             gotr, lstr = call_score(tr, mat, gam_arg, weights, True)
             nroot += 1
-            ctx.check(gotr == got and lstr == lst, "score independent of root position", "C16.rerooting",
+            ctx.check(gotr == got and lstr == lst, "score independent of root position",
+                      "C16.rerooting" + ("_trifurcating_seed" if (tri or kind == "vertex") else ""),
                       lambda: "rooting %s gives %r %r, rooting %s (%s) gives %r %r; rows=%r weights=%r gam=%r" % (
                           rt.canon(ordered=True), got, lst, rr.canon(ordered=True), kind, gotr, lstr, m["rows"],
                           weights, gam_arg))
@@ -524,7 +527,8 @@ def check_history(ctx, case):
                 ctx.cls("history.expected_differs_from_previous_call")
         prev_want = (want, want_list)
         ctx.check(fresh == want and (flst is None or flst == want_list),
-                  "score of a freshly built tree equals the weighted minimum number of changes", "C16.score_minimal",
+                  "score of a freshly built tree equals the weighted minimum number of changes",
+                  "C16.score_minimal" + ("" if rooting == "rooted" else "_trifurcating_seed"),
                   lambda: "fresh copy gives %r %r, oracle %r %r; tree=%s call=%r" % (
                       fresh, flst, want, want_list, rt.canon(ordered=True), log[-1]))
         ctx.check(got == fresh and lst == flst,
